@@ -13,7 +13,10 @@ from ..src import load, stmt_text
 LEVEL = "other"
 META = {
     "text": "Bitwise identity of the loaded tensors is the behaviour of numpy/lz4/tar and their Rust counterparts and is not decided. "
-            "Decided is the agreement of everything the two implementations must share, extracted from both source trees: (1) the "
+            "Decided is the agreement of everything the two implementations must share: the reader's side is extracted from the Rust "
+            "sources, the writer's side is READ OFF THE FILES the Python writer produces when its code is partially evaluated on a "
+            "model file system (extension, container kind, member names and their contents, compression, header document, archive "
+            "member names). (1) the "
             "reader scans the directory `operators/` of the unpacked archive - the directory the Python store writes operators "
             "to; it unpacks the whole archive and the writer adds the whole working directory under '.'; (2) header files: the "
             "extension the reader filters on is the extension the writer uses; the keys the reader takes from a header (scale, "
@@ -27,7 +30,7 @@ META = {
             "always holds an npz with both members; overwriting never leaves or misnames a second file (C37's invariant, "
             "re-used); (5) the reader's documented scale tolerance constants exist (rtol 1e-5, atol 1e-3).",
     "note": "Level 'other': necessary agreement conditions; the libraries' byte-level behaviour is outside static reach.",
-    "technique": "cross-language writer/reader tables extracted from the Rust sources (lexical front-end) and the Python AST; who-may-write rule on operator files",
+    "technique": "cross-language writer/reader tables: reader side extracted from the Rust sources (lexical front-end), writer side read off the files the Python writer produces under partial evaluation on a model file system; who-may-write rule on operator files",
     "engine": "sa",
 }
 
